@@ -46,8 +46,21 @@ RULE = ('exhaustive grid: array shapes {2-D, 3-D} x extents 1..3 x axis in {0, 1
         'a list - through its leaf function and through every public entry point that forwards it (compute_features, '
         'compute_shape_features, compute_cyclepoints, compute_burst_features, Bycycle, BycycleGroup 2-D / 3-D, '
         'compute_features_2d / _3d with one option dictionary or a per-signal list, each axis); '
-        'dimensionality and fitted-state guards. non-trivial = a list-shaped option value, a BycycleGroup.fit call, or a scalar / '
-        'enumerated parameter case')
+        'dimensionality and fitted-state guards; ONE INVALID SETTING x THE OTHER OPTIONS (kind cross): for the functions with several '
+        'options - compute_burst_fraction / compute_burst_features(amp) (fs, amp_threshes, min_n_cycles, min_burst_duration, '
+        'filter_kwargs), find_extrema / compute_cyclepoints (fs, boundary, first_extrema, pad, filter_kwargs), compute_shape_features '
+        '(fs, center_extrema, n_cycles, find_extrema_kwargs: boundary / pad / filter_kwargs), compute_band_amp (fs, n_cycles), '
+        'detect_bursts_cycles (four thresholds, min_n_cycles), detect_bursts_amp (threshold, min_n_cycles), limit_df (fs, start, stop, '
+        'reset_indices), compute_features with the cycles and with the amp method (fs, centre, burst method, thresholds, min_n_cycles, '
+        'burst_kwargs, find_extrema_kwargs, return_samples) - every invalid value of one setting with the other options at non-default '
+        'VALID values: rotating rows (all other options non-default, every (option, value) occurs), rows with exactly one other '
+        'option non-default, seeded rows; every row x every invalid value through the leaf functions and compute_features, and '
+        'through Bycycle, BycycleGroup 2-D / 3-D, compute_features_2d (dict, per-signal list, axis None) / _3d (axis 0 / 1 / (0,1)) '
+        'the rotating rows with the invalid values in turn plus a seeded third of the single-option rows, and only one (seeded) of '
+        'BycycleGroup 3-D / compute_features_2d with a dict / compute_features_3d axis 0 / 1 per run (quick) or everything '
+        '(thorough); the same call with the setting at its first valid value is run as a control (no verdict when the other options '
+        'alone are refused). non-trivial = a list-shaped option value, a BycycleGroup.fit call, a scalar / '
+        'enumerated parameter case, or a cross case whose control call is accepted')
 EXHAUSTIVE = {'quick': True, 'thorough': True}
 TRUST = ['inside the group functions multiprocessing.Pool is replaced, in-process and for the duration of one call, by a serial '
          'stand-in with the same interface (context manager + imap): a rejected setting makes the library leave `with Pool` '
@@ -64,7 +77,12 @@ ASSUMPTIONS = ['"every documented valid combination of array shape, axis and opt
                'min_n_cycles in two dictionaries (kind min_n2): a count in burst_kwargs is only a setting of the amplitude method (the '
                'cycles method never reads burst_kwargs; not generated there). The whole 5 x 5 grid is generated for every entry point '
                'since the repairs 5602cfc / 890cd9b in /repo (two classes had been excluded as PENDING-DEFECT 1, 2 while the '
-               'implementation accepted them: .work/wp/WP15_defect_{1,2}.md)']
+               'implementation accepted them: .work/wp/WP15_defect_{1,2}.md)',
+               'kind cross: a negative min_n_cycles given to compute_burst_fraction / compute_burst_features together with a '
+               'min_burst_duration (which then takes precedence in the detector) is still a negative min_n_cycles: it must raise '
+               'ValueError; invalid start / stop of limit_df and the acceptance of non-default valid option values are not '
+               'clauses of the property (model comparison only); the model judges the one varied setting alone, i.e. '
+               'independently of the other options']
 AXES = {'0': 0, '1': 1, '01': (0, 1), 'None': None, '2': 2, 'x': 'x'}
 AXC = {'0': 'Ax0', '1': 'Ax1', '01': 'Ax01', 'None': 'AxNone', '2': 'AxOther', 'x': 'AxOther'}
 
@@ -350,6 +368,308 @@ def _run_min_n2(c):
     if via == '3d_01':
         return compute_features_3d(sigs3, 100, fr, compute_features_kwargs=[[cfk(True), cfk()]], axis=(0, 1), n_jobs=1)
     raise KeyError(via)
+
+
+
+# ---------------------------------------------------------------------------------------------------------------------
+# an invalid value of ONE setting crossed with non-default VALID values of the OTHER options of the same function
+# (kind 'cross'): a validation must not depend on which other options are present
+_D = '<default>'                             # first valid value of an optional parameter: the keyword is left out
+X_EPS = 1e-9
+
+
+def _x_fs():
+    return {'valid': [100.0, 50.0, 128.0], 'bad': [-1.0, 0.0, -INF], 'stream': 'fs'}
+
+
+def _x_min_n():
+    return {'valid': [_D, 0, 1, 5], 'bad': [-1, -2], 'stream': 'min_n'}
+
+
+def _x_thr():
+    return {'valid': [_D, 0.0, 0.3, 1.0], 'bad': [-X_EPS, math.nextafter(1.0, 2.0), INF], 'stream': 'range01'}
+
+
+def _x_filt():
+    return {'valid': [_D, {'n_cycles': 5}, {'n_seconds': 0.5}], 'bad': []}
+
+
+def _x_fx():
+    return {'fx.boundary': {'valid': [_D, 1, 10], 'bad': []}, 'fx.pad': {'valid': [_D, False], 'bad': []},
+            'fx.filter_kwargs': _x_filt()}
+
+
+def _x_bk():
+    return {'amp_threshes': {'valid': [_D, (0.5, 1.5), (0.0, 3.0), (1.0, 1.0)],
+                             'bad': [(2.0, 1.0), (-0.1, 1.0), (1.0 + X_EPS, 1.0)], 'stream': 'ampthr'},
+            'min_n_cycles': _x_min_n(), 'min_burst_duration': {'valid': [_D, 0.1, 0.5], 'bad': []},
+            'filter_kwargs': _x_filt()}
+
+
+def _x_centre():
+    return {'valid': [_D, 'trough'], 'bad': ['x', None, 'Peak'], 'stream': 'optval', 'coq': 'OCenter'}
+
+
+CF_VIAS = ['compute_features', 'Bycycle', 'Group2', 'Group3', '2d', '2d_list', '2d_none', '3d', '3d_1', '3d_01']
+X_CF_ROTATING = ['Group3', '2d', '3d', '3d_1']            # quick tier: one of these per run (seeded), thorough: all
+X_FULL_VIAS = ('leaf', 'compute_features', 'burst_features', 'cyclepoints')       # every row x every invalid value in both tiers
+
+
+def _x_spec():
+    thr4 = ['amp_fraction_threshold', 'amp_consistency_threshold', 'period_consistency_threshold', 'monotonicity_threshold']
+    sp = {}
+    sp['burst_fraction'] = {'vias': ['leaf', 'burst_features'], 'params': dict({'fs': _x_fs()}, **_x_bk())}
+    sp['find_extrema'] = {'vias': ['leaf', 'cyclepoints'], 'params': {
+        'fs': _x_fs(), 'boundary': {'valid': [_D, 1, 10], 'bad': []},
+        'first_extrema': {'valid': [_D, 'trough', None], 'bad': ['x', '', 'Peak', 0], 'stream': 'optval', 'coq': 'OFirstExtrema'},
+        'pad': {'valid': [_D, False], 'bad': []}, 'filter_kwargs': _x_filt()}}
+    sp['shape'] = {'vias': ['leaf'], 'params': dict({'fs': _x_fs(), 'center_extrema': _x_centre(),
+                                                      'n_cycles': {'valid': [_D, 2, 5], 'bad': [-1, -2.5], 'stream': 'range0inf'}},
+                                                     **_x_fx())}
+    sp['band_amp'] = {'vias': ['leaf'], 'params': {'fs': _x_fs(),
+                                                   'n_cycles': {'valid': [_D, 2, 5], 'bad': [-1, -2.5], 'stream': 'range0inf'}}}
+    sp['cycles'] = {'vias': ['leaf'], 'params': dict({k: _x_thr() for k in thr4}, min_n_cycles=_x_min_n())}
+    sp['amp'] = {'vias': ['leaf'], 'params': {'burst_fraction_threshold': _x_thr(), 'min_n_cycles': _x_min_n()}}
+    # start / stop are not named by the property: their invalid values are compared with the model only ('noverdict')
+    sp['limit_df'] = {'vias': ['leaf'], 'params': {
+        'fs': _x_fs(), 'start': {'valid': [_D, 0.0, 0.2], 'bad': [-0.1], 'stream': 'start', 'noverdict': True},
+        'stop': {'valid': [_D, 1.0, 2.0], 'bad': [-1.0], 'stream': 'stop', 'noverdict': True},
+        'reset_indices': {'valid': [_D, False], 'bad': []}}}
+    top = {'fs': _x_fs(), 'center_extrema': _x_centre()}
+    sp['cf_cycles'] = {'vias': CF_VIAS, 'params': dict(
+        top, burst_method={'valid': [_D, 'cycles'], 'bad': ['x', None, ''], 'stream': 'optval', 'coq': 'OBurstMethod'},
+        **dict({'thr.' + k: _x_thr() for k in thr4}, **{'thr.min_n_cycles': _x_min_n()}),
+        **_x_fx(), return_samples={'valid': [_D, False], 'bad': []})}
+    sp['cf_amp'] = {'vias': CF_VIAS, 'params': dict(
+        top, burst_method={'valid': ['amp'], 'bad': ['x', None, ''], 'stream': 'optval', 'coq': 'OBurstMethod'},
+        **{'thr.burst_fraction_threshold': _x_thr(), 'thr.min_n_cycles': _x_min_n()},
+        **{'bk.' + k: v for k, v in _x_bk().items()}, **_x_fx(), return_samples={'valid': [_D, False], 'bad': []})}
+    return sp
+
+
+X_SPEC = _x_spec()
+# a documented value that one forwarding entry point cannot take (see OPT_NO_VERDICT_VALUES): kept at its default there
+X_VIA_FIXED = {('find_extrema', 'cyclepoints'): {'first_extrema'}}
+
+
+def _x_rows(rng, params, focus, fixed, n_random):
+    """Settings of the OTHER options (index into 'valid'; 0 = default, left out).  'rot' rows: every other option at a
+    non-default valid value, rotating so that every (option, value) occurs; 'one' rows: exactly one other option at a
+    non-default value; 'rnd' rows: each other option at a seeded value (default included)."""
+    others = [q for q in params if q != focus and q not in fixed and len(params[q]['valid']) > 1]
+    rot, one, rnd = [], [], []
+    if others:
+        off = {q: rng.randrange(8) for q in others}
+        for j in range(max(len(params[q]['valid']) - 1 for q in others)):
+            rot.append({q: 1 + (j + off[q]) % (len(params[q]['valid']) - 1) for q in others})
+        for q in others:
+            for w in range(1, len(params[q]['valid'])):
+                one.append({q: w})
+        for _ in range(n_random):
+            r = {q: rng.randrange(len(params[q]['valid'])) for q in others}
+            rnd.append({q: w for q, w in r.items() if w})
+    return rot, one, rnd
+
+
+def _x_show(fn, c):
+    return ', '.join('%s=%r' % kv for kv in sorted(_x_vals(c).items(), key=lambda kv: kv[0] != c['focus']))
+
+
+def _cross_cases(rng, tier):
+    out = []
+
+    def put(fn, via, focus, fk, fi, ctx):
+        c = {'kind': 'cross', 'fn': fn, 'via': via, 'focus': focus, 'fk': fk, 'fi': fi, 'ctx': dict(ctx)}
+        c['show'] = _x_show(fn, c)
+        out.append(c)
+
+    for fn, sp in X_SPEC.items():
+        params = sp['params']
+        vias = list(sp['vias'])
+        if tier == 'quick' and vias == CF_VIAS:
+            # 3-D group / plain dict entry points hand every signal to compute_features like their 2-D siblings: one of them per run
+            vias = [v for v in vias if v not in X_CF_ROTATING] + [rng.choice(X_CF_ROTATING)]
+        for via in vias:
+            fixed = X_VIA_FIXED.get((fn, via), set())
+            full = via in X_FULL_VIAS or tier == 'thorough'
+            for focus, ps in params.items():
+                rot, one, rnd = _x_rows(rng, params, focus, fixed, 2 if full else 1)
+                nb = len(ps['bad'])
+                if nb and full:
+                    for row in rot + one + rnd:
+                        for i in range(nb):
+                            put(fn, via, focus, 'bad', i, row)
+                elif nb:
+                    # forwarding entry points, quick tier: the rotating rows (every other option x every non-default value)
+                    # with the invalid values taken in turn, plus a seeded third of the single-option rows
+                    rows = list(rot)
+                    while rows and len(rows) < nb:
+                        rows.append(rot[len(rows) % len(rot)])
+                    o = rng.randrange(nb)
+                    for j, row in enumerate(rows):
+                        put(fn, via, focus, 'bad', (j + o) % nb, row)
+                    for row in rng.sample(one, (len(one) + 2) // 3) + rnd:
+                        put(fn, via, focus, 'bad', rng.randrange(nb), row)
+                # the valid values of the focus (0 = the control of the rows above) in the first rotating row
+                if focus not in fixed and (via in X_FULL_VIAS or via == 'Bycycle' or tier == 'thorough'):
+                    for i in range(len(ps['valid'])):
+                        put(fn, via, focus, 'valid', i, rot[0] if rot else {})
+    return out
+
+
+def _x_vals(c, control=False):
+    """name -> value of every option that is passed (defaults left out); control: the focus at its first valid value"""
+    params = X_SPEC[c['fn']]['params']
+    vals = {}
+    for q, ps in params.items():
+        if q == c['focus']:
+            v = ps['valid'][0] if control else ps[c['fk']][c['fi']]
+        else:
+            v = ps['valid'][c['ctx'].get(q, 0)]
+        if not (isinstance(v, str) and v == _D):
+            vals[q] = v
+    return vals
+
+
+def _x_sub(vals, prefix):
+    import copy
+    return {k[len(prefix):]: copy.deepcopy(v) for k, v in vals.items() if k.startswith(prefix)}
+
+
+_X_CACHE = {}
+
+
+def _x_cached(key, f):
+    if key not in _X_CACHE:
+        _X_CACHE[key] = f()
+    return _X_CACHE[key]
+
+
+def _x_call(fn, via, vals):
+    """One call of the entry point `via` of function family `fn` with the options `vals`."""
+    import copy
+    from bycycle.features import compute_features, compute_shape_features, compute_cyclepoints, compute_burst_features
+    sig, fr = _sig(), (3, 8)
+    vals = copy.deepcopy(vals)
+    if fn == 'burst_fraction':
+        from bycycle.features.burst import compute_burst_fraction
+        dfs = _x_cached('cyclepoints', lambda: compute_cyclepoints(sig, 100, fr)).copy()
+        fs = vals.pop('fs')
+        if via == 'leaf':
+            return compute_burst_fraction(dfs, sig, fs, fr, **vals)
+        return compute_burst_features(dfs, sig, burst_method='amp', burst_kwargs=dict(vals, fs=fs, f_range=fr))
+    if fn == 'find_extrema':
+        fs = vals.pop('fs')
+        if via == 'leaf':
+            from bycycle.cyclepoints import find_extrema
+            return find_extrema(sig, fs, fr, **vals)
+        return compute_cyclepoints(sig, fs, fr, **vals)
+    if fn == 'shape':
+        fx = _x_sub(vals, 'fx.')
+        kw = {k: v for k, v in vals.items() if not k.startswith('fx.') and k != 'fs'}
+        if fx:
+            kw['find_extrema_kwargs'] = fx
+        return compute_shape_features(sig, vals['fs'], fr, **kw)
+    if fn == 'band_amp':
+        from bycycle.features.shape import compute_band_amp
+        dfs = _x_cached('cyclepoints', lambda: compute_cyclepoints(sig, 100, fr)).copy()
+        fs = vals.pop('fs')
+        return compute_band_amp(dfs, sig, fs, fr, **vals)
+    if fn == 'cycles':
+        from bycycle.burst import detect_bursts_cycles
+        return detect_bursts_cycles(_frame(), **vals)
+    if fn == 'amp':
+        from bycycle.burst import detect_bursts_amp
+        return detect_bursts_amp(_frame(), **vals)
+    if fn == 'limit_df':
+        from bycycle.utils import limit_df
+        df = _x_cached('features', lambda: compute_features(sig, 100, fr, threshold_kwargs=dict(_PLOT_THR))).copy()
+        fs = vals.pop('fs')
+        return limit_df(df, fs, **vals)
+    # compute_features and everything that forwards to it
+    fs = vals['fs']
+
+    def cfk(v):
+        kw = {k: copy.deepcopy(v[k]) for k in ('center_extrema', 'burst_method') if k in v}
+        kw['threshold_kwargs'] = _x_sub(v, 'thr.')
+        if _x_sub(v, 'bk.'):
+            kw['burst_kwargs'] = _x_sub(v, 'bk.')
+        if _x_sub(v, 'fx.'):
+            kw['find_extrema_kwargs'] = _x_sub(v, 'fx.')
+        return kw
+
+    kw = cfk(vals)
+    rs = {'return_samples': vals['return_samples']} if 'return_samples' in vals else {}
+    if via == 'compute_features':
+        return compute_features(sig, fs, fr, **kw, **rs)
+    if via in ('Bycycle', 'Group2', 'Group3'):
+        okw = dict({k: v for k, v in kw.items() if k != 'threshold_kwargs'}, thresholds=kw['threshold_kwargs'], **rs)
+        if via == 'Bycycle':
+            from bycycle import Bycycle
+            return Bycycle(**okw).fit(sig, fs, fr)
+        from bycycle import BycycleGroup
+        sigs = np.array([_sig(240, 0), _sig(240, 1)])
+        return BycycleGroup(**okw).fit(sigs if via == 'Group2' else np.array([sigs]), fs, fr, n_jobs=1)
+    from bycycle.group import compute_features_2d, compute_features_3d
+    sigs2 = np.array([_sig(240, 0), _sig(240, 1)])
+    sigs3 = np.array([sigs2])
+    if via == '2d':
+        return compute_features_2d(sigs2, fs, fr, compute_features_kwargs=kw, n_jobs=1, **rs)
+    if via == '2d_list':
+        # the other entry: the same options with every setting of this case that has a default left at it
+        first = cfk({k: v for k, v in vals.items() if X_SPEC[fn]['params'][k]['valid'][0] != _D})
+        return compute_features_2d(sigs2, fs, fr, compute_features_kwargs=[first, kw], n_jobs=1, **rs)
+    if via == '2d_none':
+        return compute_features_2d(sigs2, fs, fr, compute_features_kwargs=kw, axis=None, n_jobs=1, **rs)
+    if via == '3d':
+        return compute_features_3d(sigs3, fs, fr, compute_features_kwargs=kw, n_jobs=1, **rs)
+    if via == '3d_1':
+        return compute_features_3d(sigs3, fs, fr, compute_features_kwargs=kw, axis=1, n_jobs=1, **rs)
+    if via == '3d_01':
+        first = cfk({k: v for k, v in vals.items() if X_SPEC[fn]['params'][k]['valid'][0] != _D})
+        return compute_features_3d(sigs3, fs, fr, compute_features_kwargs=[[first, kw]], axis=(0, 1), n_jobs=1, **rs)
+    raise KeyError(via)
+
+
+def _run_cross(c):
+    o = _attempt(lambda: _x_call(c['fn'], c['via'], _x_vals(c)))
+    if c['fk'] == 'bad':
+        # the same call with the focus at its first valid value: is the CONTEXT (the other options) accepted at all?
+        key = 'ctl|%s|%s|%s|%s' % (c['fn'], c['via'], c['focus'], sorted(c['ctx'].items()))
+        o['ctl'] = _x_cached(key, lambda: _attempt(lambda: _x_call(c['fn'], c['via'], _x_vals(c, control=True)))['r'])
+    return o
+
+
+def _x_param(c):
+    return X_SPEC[c['fn']]['params'][c['focus']]
+
+
+def _x_model(c):
+    """(stream, input literal) of the model function that judges the focus value alone"""
+    ps = _x_param(c)
+    v = ps[c['fk']][c['fi']]
+    st = ps.get('stream')
+    if st is None or (isinstance(v, str) and v == _D):
+        return None
+    if st == 'fs':
+        return 'fs', coqio.fl(float(v))
+    if st == 'min_n':
+        return 'min_n', '%s%%Z' % coqio.Z(v)
+    if st == 'range01':
+        return 'range', '(%s, 0, 1)' % coqio.fl(float(v))
+    if st == 'range0inf':
+        return 'range', '(%s, 0, infinity)' % coqio.fl(float(v))
+    if st == 'ampthr':
+        return 'ampthr', '(%s, %s)' % (coqio.fl(float(v[0])), coqio.fl(float(v[1])))
+    if st in ('start', 'stop'):
+        other = _x_vals(c).get('stop' if st == 'start' else 'start')
+        if st == 'start':
+            return 'range', '(%s, 0, %s)' % (coqio.fl(float(v)), 'infinity' if other is None else coqio.fl(float(other)))
+        return 'range', '(%s, %s, infinity)' % (coqio.fl(float(v)), coqio.fl(0.0 if other is None else float(other)))
+    if st == 'optval':
+        pv = _pyval(v)
+        return None if pv is None else ('optval', '(%s, %s)' % (ps['coq'], pv))
+    return None
 
 
 class _SerialPool:
@@ -652,6 +972,8 @@ def cases(rng, tier):
     # large extents last (their own draws come after all others: the streams above are as before)
     out.extend(dict(g, kind='shape', big=True) for g in _big_shape_grid(rng, tier))
     out.extend(_big_entry_cases(rng, tier))
+    # one invalid setting x non-default valid values of the other options (own draws after all others)
+    out.extend(_cross_cases(rng, tier))
     return out
 
 
@@ -826,6 +1148,8 @@ def _run_impl(c):
         return _attempt(lambda: _run_optval(c['opt'], c['via'], v))
     if k == 'min_n2':
         return _attempt(lambda: _run_min_n2(c))
+    if k == 'cross':
+        return _run_cross(c)
     if k == 'obj':
         import copy
         kw = copy.deepcopy(OBJ_SETTINGS[c['setting']][1])
@@ -944,6 +1268,10 @@ def _expected(c):
         return OBJ_SETTINGS[c['setting']][2]
     if k == 'optval':
         return _optval_expected(c)
+    if k == 'cross':
+        # an invalid value must be rejected whatever the other options are; the acceptance of non-default valid scalar
+        # options is not a clause of the property (model comparison only), nor are limit_df's start / stop
+        return False if c['fk'] == 'bad' and not _x_param(c).get('noverdict') else None
     if k == 'option':
         o, v = c['opt'], _num(c['v'])
         if o == 'first_extrema_override':
@@ -959,6 +1287,11 @@ def oracle(c, o):
     want = _expected(c)
     if want is None:
         return None
+    if c['kind'] == 'cross':
+        if o.get('ctl') != 'ok':
+            return None                      # the other options alone are not accepted: no verdict about the invalid one
+        if o['r'] == 'ok':
+            return 'invalid setting accepted and analysed: %s through %s with %s returned a result' % (c['fn'], c['via'], c['show'])
     if want:
         return None if o['r'] == 'ok' else 'valid setting rejected (%s: %s)' % (o['r'], o.get('msg'))
     if o['r'] == 'ok':
@@ -974,6 +1307,8 @@ def oracle(c, o):
 def nontrivial(c, o):
     if c['kind'] in ('shape', 'entry'):
         return c['kw'][0] in ('K1', 'K2') or c.get('via') == 'group'
+    if c['kind'] == 'cross':                 # the other options are accepted on their own (bad focus) / the call ran (valid focus)
+        return o.get('ctl') == 'ok' if c['fk'] == 'bad' else o.get('r') == 'ok'
     return True
 
 
@@ -990,6 +1325,12 @@ def kind_of(c, o):
     elif k == 'min_n2':
         cls = lambda n: 'absent' if n is None else ('negative' if n < 0 else 'valid')
         k += '/%s/%s/burst_kwargs:%s/thresholds:%s' % (c['via'], c['method'], cls(c['bk']), cls(c['thr']))
+    elif k == 'cross':
+        n = len(c['ctx'])
+        k += '/%s/%s/%s:%s/others:%s' % (c['fn'], c['via'], c['focus'], 'invalid' if c['fk'] == 'bad' else 'valid',
+                                         'default' if n == 0 else ('one' if n == 1 else 'several'))
+        if c['fk'] == 'bad' and o.get('ctl') != 'ok':
+            k += '/context-rejected'
     if c.get('big'):
         k += '/large-extent'
     return k + '/' + o.get('r', '?')
@@ -1023,6 +1364,8 @@ def stream_of(c):
         return _obj_model(c)[0]
     if k == 'optval':
         return 'entry' if c['opt'] == 'axis' else 'optval'
+    if k == 'cross':
+        return _x_model(c)[0]
     if k == 'option':
         o = c['opt']
         return 'option' if o in OPTION_TABLES else ('guard' if o in GUARDS else 'range')
@@ -1055,6 +1398,11 @@ def coq_case(c, o):
         return coqio.fl(_num(c['fs'])), acc
     if k == 'obj':
         return _obj_model(c)[1], acc
+    if k == 'cross':
+        m = _x_model(c)
+        if m is None or (c['fk'] == 'bad' and o.get('ctl') != 'ok'):
+            return None                      # no model of this option alone / the other options are not accepted on their own
+        return m[1], acc
     if k == 'optval':
         opt, via, v = c['opt'], c['via'], _decv(c['v'])
         if opt == 'axis':
